@@ -141,7 +141,7 @@ static const OpDef opdefs[OP__COUNT] = {
 	{ OP_DEL_NAMED_ROW, 1, "delete_named_row", 0 }, { OP_DEL_NAMED_ROWS_LIST, 1, "delete_named_rows_list", 0 },
 	{ OP_DEL_COL, 2, "delete_col", 2 }, { OP_DEL_COLS, 1, "delete_cols", 0 }, { OP_DEL_SETCOLS, 1, "delete_setcols", 0 },
 	{ OP_DEL_NAMED_COL, 1, "delete_named_column", 0 }, { OP_DEL_NAMED_COLS_LIST, 1, "delete_named_columns_list", 0 },
-	{ OP_CHG_COEF, 3, "change_coef", 1 }, { OP_CHG_OBJ, 2, "change_objcoef", 1 }, { OP_CHG_RHS, 2, "change_rhscoef", 1 },
+	{ OP_CHG_COEF, 4, "change_coef", 1 }, { OP_CHG_OBJ, 2, "change_objcoef", 1 }, { OP_CHG_RHS, 2, "change_rhscoef", 1 },
 	{ OP_CHG_RANGE, 2, "change_range", 1 }, { OP_CHG_SENSE, 4, "change_sense", 2 }, { OP_CHG_SENSES, 1, "change_senses", 0 },
 	{ OP_CHG_BOUND, 5, "change_bound", 2 }, { OP_CHG_BOUNDS, 1, "change_bounds", 0 }, { OP_CHG_OBJSENSE, 2, "change_objsense", 1 },
 	{ OP_LOAD_BASIS, 2, "load_basis", 1 }, { OP_LOAD_BASIS_ARRAY, 1, "load_basis_array", 0 }, { OP_WRITE_READ_LOAD_BASIS, 1, "write_basis+read_and_load_basis", 0 },
@@ -313,7 +313,13 @@ static void apply_op (HState * S, Trans t)
 	case OP_CHG_COEF: {
 		if (!n || !m) { S->inapplicable = 1; break; }
 		int r = v == 1 ? m - 1 : 0, j = v == 0 ? 0 : n - 1;
-		Q (a, v == 0 ? "5/2" : v == 1 ? "0" : "-1");
+		Q (a, v == 0 ? "5/2" : v == 1 ? "0" : v == 2 ? "-1" : "7/3");
+		if (v == 3) {
+			/* a NEW non-zero in a column that is not the last one of the sparse store (no free slot behind it) */
+			r = -1;
+			for (int jj = 0; jj < n - 1 && r < 0; jj++) for (int rr = 0; rr < m; rr++) if (!mpq_sgn (REF_A (M, rr, jj))) { r = rr; j = jj; break; }
+			if (r < 0) { S->inapplicable = 1; break; }
+		}
 		CALL (mpq_QSchange_coef (p, r, j, a));
 		mpq_set (REF_A (M, r, j), a);
 		break;
